@@ -295,7 +295,7 @@ pub mod bag {
 
 pub mod ovr {
     use cw_storage_plus::Item;
-    use sylvia::ctx::{ExecCtx, InstantiateCtx, QueryCtx, SudoCtx};
+    use sylvia::ctx::{ExecCtx, InstantiateCtx, MigrateCtx, QueryCtx, SudoCtx};
     use sylvia::cw_std::{DepsMut, Env, MessageInfo, Response, StdError, StdResult};
 
     #[derive(sylvia::serde::Serialize, sylvia::serde::Deserialize, Clone, Debug, PartialEq, sylvia::schemars::JsonSchema)]
@@ -375,6 +375,15 @@ pub mod ovr {
             }
             self.total.save(ctx.deps.storage, &to)?;
             Ok(Response::new())
+        }
+
+        #[sv::msg(migrate)]
+        fn migrate(&self, ctx: MigrateCtx, to: u32) -> StdResult<Response> {
+            if to == 13 {
+                return Err(StdError::generic_err("unlucky migrate"));
+            }
+            self.total.save(ctx.deps.storage, &(to + 1000))?;
+            Ok(Response::new().add_attribute("migrated", to.to_string()))
         }
     }
 }
@@ -667,6 +676,38 @@ program!(
     }
 );
 
+fn ovr_inst<'p, 'a>(code: &'p ovr::sv::mt::CodeId<'a, ovr::Ovr, sylvia::cw_multi_test::App>, v: u32) -> ovr::sv::mt::InstantiateProxy<'p, 'a, sylvia::cw_multi_test::App> {
+    code.instantiate(v)
+}
+
+// a contract whose execute entry point is overridden by a hand-written function: proxy and raw JSON must both reach the override
+program!(
+    OvrProg, "overridden exec", ovr::Ovr, crate::history_progs::ovr, sylvia::cw_std::StdError,
+    |v: u32| format!("{{\"start\":{}}}", v),
+    ovr_inst,
+    |mi: u8, arg: u32| if mi == 0 { format!("{{\"add\":{{\"n\":{}}}}}", arg) } else { "{\"clear\":{}}".to_string() },
+    |p: &sylvia::multitest::Proxy<sylvia::cw_multi_test::App, ovr::Ovr>, mi: u8, arg: u32, f: &[Coin], s: &Addr| {
+        use ovr::sv::mt::OvrProxy;
+        if mi == 0 { p.add(arg).with_funds(f).call(s) } else { p.clear().with_funds(f).call(s) }
+    },
+    |mi: u8, arg: u32| if mi == 0 { "{\"total\":{}}".to_string() } else { format!("{{\"total_plus\":{{\"n\":{}}}}}", arg) },
+    |p: &sylvia::multitest::Proxy<sylvia::cw_multi_test::App, ovr::Ovr>, mi: u8, arg: u32| {
+        use ovr::sv::mt::OvrProxy;
+        if mi == 0 { p.total() } else { p.total_plus(arg) }
+    },
+    |_mi: u8, arg: u32| format!("{{\"set\":{{\"to\":{}}}}}", arg),
+    |p: &sylvia::multitest::Proxy<sylvia::cw_multi_test::App, ovr::Ovr>, _mi: u8, arg: u32| {
+        use ovr::sv::mt::OvrProxy;
+        p.set(arg)
+    },
+    |arg: u32| format!("{{\"to\":{}}}", arg),
+    |p: &sylvia::multitest::Proxy<sylvia::cw_multi_test::App, ovr::Ovr>, arg: u32, s: &Addr, code: u64| {
+        use ovr::sv::mt::OvrProxy;
+        p.migrate(arg).call(s, code)
+    }
+);
+
 pub fn all(tier: &str) -> Vec<Box<dyn Program>> {
-    vec![Box::new(CntProg { ops: alphabet(tier) }), Box::new(LedProg { ops: alphabet(tier) }), Box::new(BagProg { ops: alphabet(tier) })]
+    vec![Box::new(CntProg { ops: alphabet(tier) }), Box::new(LedProg { ops: alphabet(tier) }), Box::new(BagProg { ops: alphabet(tier) }),
+         Box::new(OvrProg { ops: alphabet(tier) })]
 }
